@@ -54,3 +54,11 @@ Definition calls_in (evs : list sev) : list (string * list string) :=
   flat_map (fun e => match e with SCall c a => [(c, a)] | _ => [] end) evs.
 Definition has_call_in (c : string) (args : list string) (evs : list sev) : bool :=
   existsb (fun x => seqb (fst x) c && slist_eqb (snd x) args) (calls_in evs).
+
+(* the then-branch (up to SElse / SEndIf) and the else-branch (SElse .. SEndIf) of the first if with the given condition (no nesting inside) *)
+Fixpoint upto_else (l : list sev) : list sev := match l with [] => [] | SElse :: _ => [] | SEndIf :: _ => [] | e :: r => e :: upto_else r end.
+Fixpoint from_else (l : list sev) : list sev := match l with [] => [] | SEndIf :: _ => [] | SElse :: r => upto_else r | _ :: r => from_else r end.
+Fixpoint then_branch (c : string) (evs : list sev) : list sev :=
+  match evs with [] => [] | SIf a :: tl => if seqb a c then upto_else tl else then_branch c tl | _ :: tl => then_branch c tl end.
+Fixpoint else_branch (c : string) (evs : list sev) : list sev :=
+  match evs with [] => [] | SIf a :: tl => if seqb a c then from_else tl else else_branch c tl | _ :: tl => else_branch c tl end.
